@@ -126,6 +126,7 @@ type vTrig struct {
 
 // VerifC15Sched: the slots of "slots" (bitmask over 0..7; unset bits are missed ticks) are scheduled in order.
 func VerifC15Sched() {
+	vrt.Unwind(16) // scheduleSlot iterates over all 13 duty types
 	mask := vrt.Param("slots")
 	bn := &vBN{}
 	// validator status is concrete per case ("act": bit v set = validator v active); an inactive validator's activation
